@@ -356,7 +356,7 @@ def drive(w, app, body, rpc=False):
 
     def fault(e):
         code = getattr(e, 'faultcode', '')
-        if code == 'Client.ValidationError':
+        if code in ('Client.ValidationError', 'Client.MessagePackDecodeError'):
             return ('invalid',)
         if code == 'Client.ResourceNotFound':
             return ('notfound',)
